@@ -189,8 +189,47 @@ class ExprCanon(ast.NodeTransformer):
                     return at(anyc, node)
         return node
 
+    def _fuse(self, node):
+        """[F(e) for e in (G(m) for m in X if Q(m)) if P(e)]  ->  [F(G(m)) for m in X if Q(m) if P(G(m))]"""
+        g = node.generators[0]
+        inner = g.iter
+        if isinstance(inner, ast.Call) and isinstance(inner.func, ast.Name) and inner.func.id in ('list', 'tuple', 'iter') \
+                and len(inner.args) == 1 and not inner.keywords:
+            inner = inner.args[0]
+        if not (isinstance(inner, (ast.GeneratorExp, ast.ListComp)) and len(inner.generators) == 1 and isinstance(g.target, ast.Name)
+                and not g.is_async and not inner.generators[0].is_async):
+            return node
+        ig = inner.generators[0]
+        inner_names = set(_target_names(ig.target))
+        rest = ast.Module(body=[ast.Expr(value=x) for x in ([node.elt] if not isinstance(node, ast.DictComp) else [node.key, node.value])
+                                + list(g.ifs) + [y for h in node.generators[1:] for y in [h.iter] + list(h.ifs)]], type_ignores=[])
+        if any(isinstance(n, ast.Name) and n.id in inner_names for n in ast.walk(rest)):
+            return node         # the inner variable would capture a name of the outer expression
+        sub = Subst({g.target.id: inner.elt})
+        for field in ('elt', 'key', 'value'):
+            if hasattr(node, field):
+                setattr(node, field, sub.visit(getattr(node, field)))
+        new_ifs = list(ig.ifs) + [sub.visit(c) for c in g.ifs]
+        first = ast.comprehension(target=ig.target, iter=ig.iter, ifs=new_ifs, is_async=0)
+        later = []
+        for h in node.generators[1:]:
+            h.iter = sub.visit(h.iter)
+            h.ifs = [sub.visit(c) for c in h.ifs]
+            later.append(h)
+        node.generators = [first] + later
+        return self._fuse(node)
+
+    def visit_GeneratorExp(self, node):
+        self.generic_visit(node)
+        return self._fuse(node)
+
+    def visit_SetComp(self, node):
+        self.generic_visit(node)
+        return self._fuse(node)
+
     def visit_ListComp(self, node):
         self.generic_visit(node)
+        node = self._fuse(node)
         if len(node.generators) == 1 and not node.generators[0].is_async:
             g = node.generators[0]
             # [v for v in it] -> list(it)
@@ -877,7 +916,8 @@ def adjacent_temps(block: list, whole_body: list) -> list:
     while i < len(out):
         nm, val = _single_name_assign(out[i])
         if nm is None or stores.get(nm) != 1 or not loads.get(nm) or isinstance(val, (ast.Lambda, ast.ListComp, ast.List, ast.Dict, ast.Set,
-                                                                                       ast.DictComp, ast.SetComp, ast.GeneratorExp)):
+                                                                                       ast.DictComp, ast.SetComp)) \
+                or (isinstance(val, ast.GeneratorExp) and loads.get(nm) != 1):      # a generator is consumed once
             i += 1
             continue
         # the run of bindings that follows, then the consumer
@@ -1148,6 +1188,7 @@ class Normalizer:
             body = canon_block(body)
             body = self.inline_block(body, fi, 0)
             body = self.unroll_block(body, fi)
+            body = self.bool_tables(body, fi)
             body = fold_trivial(body)
             body = attribute_aliases(body)
             body = self.copy_propagate(body, fi)
@@ -1347,7 +1388,7 @@ class Normalizer:
                 return None
         return mapping
 
-    def callee_body(self, target: FuncInfo):
+    def callee_body(self, target: FuncInfo, generator=False):
         self.normalize(target)
         if isinstance(target.node, ast.Lambda):
             return [ast.Return(value=clone(target.node.body), lineno=target.node.lineno, col_offset=0)]
@@ -1356,7 +1397,8 @@ class Normalizer:
             body = body[1:]
         if sum(1 for s in body for _ in ast.walk(s)) > MAX_HELPER_NODES:
             return None
-        if has_node(body, (ast.Yield, ast.YieldFrom, ast.Await, ast.Global, ast.Nonlocal, ast.FunctionDef, ast.AsyncFunctionDef, ast.ClassDef)):
+        if has_node(body, ((ast.YieldFrom,) if generator else (ast.Yield, ast.YieldFrom))
+                    + (ast.Await, ast.Global, ast.Nonlocal, ast.FunctionDef, ast.AsyncFunctionDef, ast.ClassDef)):
             return None
         return clone(body)
 
@@ -1659,6 +1701,75 @@ class Normalizer:
         self.inlined_names.add(target.qualname)
         return prefix + mod.body, ret
 
+    def try_generator_inline(self, s: ast.For, fi: FuncInfo):
+        """`for x in helper(args): BODY` where helper is a generator function the pinned tree does not know: the statements of
+        the helper with `x = <yielded value>; BODY` in place of every `yield` (BODY without break / continue / return, the helper
+        without return value, yield expressions used as statements only)."""
+        if s.orelse or not isinstance(s.iter, ast.Call) or not isinstance(s.target, ast.Name):
+            return None
+        if has_node(s.body, (ast.Break, ast.Continue), stop_at_loops=True) or has_node(s.body, (ast.Return, ast.Yield, ast.YieldFrom)):
+            return None
+        r = self.resolve_callee(s.iter, fi)
+        if r is None:
+            return None
+        target, recv = r
+        if isinstance(target.node, ast.Lambda) or not has_node(target.node.body, (ast.Yield,)):
+            return None
+        if has_node(target.node.body, (ast.YieldFrom, ast.Try, ast.With)):
+            return None
+        mapping = self.bind(s.iter, target, recv, fi)
+        if mapping is None:
+            return None
+        body = self.callee_body(target, generator=True)
+        if body is None:
+            return None
+        # yields must be whole statements; returns must be bare
+        for n in ast.walk(ast.Module(body=body, type_ignores=[])):
+            if isinstance(n, ast.Return) and n.value is not None:
+                return None
+        n_yield = sum(1 for n in ast.walk(ast.Module(body=body, type_ignores=[])) if isinstance(n, ast.Yield))
+        n_stmt = sum(1 for n in ast.walk(ast.Module(body=body, type_ignores=[])) if isinstance(n, ast.Expr) and isinstance(n.value, ast.Yield))
+        if n_yield != n_stmt or n_yield == 0 or n_yield > 3:
+            return None
+        if has_node(body, (ast.Return,)):
+            return None             # an early return of the generator would have to leave the inlined block only
+        if not self._share_globals(body, target, fi):
+            return None
+        self._avoid_capture(body, mapping)
+        assigned = stores_in(body)
+        ren, prefix, sub = {}, [], {}
+        for p_, a in mapping.items():
+            if p_ in assigned or not _atomic(a):
+                n = self.fresh(p_)
+                ren[p_] = n
+                prefix.append(at(ast.Assign(targets=[ast.Name(id=n, ctx=ast.Store())], value=clone(a)), s))
+            else:
+                sub[p_] = a
+        for n in assigned:
+            if n not in ren:
+                ren[n] = self.fresh(n)
+        mod = ast.Module(body=body, type_ignores=[])
+        Rename(ren).visit(mod)
+        Subst(sub).visit(mod)
+        loop = s
+
+        class Y(ast.NodeTransformer):
+            def visit_Expr(self, node):
+                if isinstance(node.value, ast.Yield):
+                    v = node.value.value if node.value.value is not None else ast.Constant(value=None)
+                    return [at(ast.Assign(targets=[ast.Name(id=loop.target.id, ctx=ast.Store())], value=v), node)] + clone(loop.body)
+                return node
+
+            def visit_FunctionDef(self, node):
+                return node
+            visit_Lambda = visit_ClassDef = visit_AsyncFunctionDef = visit_FunctionDef
+        Y().visit(mod)
+        for b in mod.body:
+            ast.fix_missing_locations(b)
+        self.stats['inlined'] += 1
+        self.inlined_names.add(target.qualname)
+        return prefix + mod.body
+
     def inline_block(self, stmts: list, fi: FuncInfo, depth: int) -> list:
         out = []
         for s in stmts:
@@ -1676,6 +1787,11 @@ class Normalizer:
         if isinstance(s, ast.Try):
             for h in s.handlers:
                 h.body = self.inline_block(h.body, fi, depth)
+        # 0. `for x in self._generator(...): BODY`: the generator's body with BODY in place of every `yield`
+        if isinstance(s, ast.For):
+            g = self.try_generator_inline(s, fi)
+            if g is not None:
+                return self.inline_block(g, fi, depth + 1) if depth < 4 else g
         # 1. expression helpers anywhere
         for field, value in list(ast.iter_fields(s)):
             if field in ('body', 'orelse', 'finalbody', 'handlers'):
@@ -2109,6 +2225,44 @@ class Normalizer:
         if isinstance(val, ast.Dict) and len(val.keys) <= MAX_TABLE and all(k is not None for k in val.keys):
             return val
         return None
+
+    def bool_tables(self, stmts: list, fi: FuncInfo) -> list:
+        """`TABLE[test]` / `TABLE.get(test)` on a constant table whose keys are exactly True and False, and `(a, b)[test]` on a
+        literal pair, are the conditional expression they spell."""
+        nz = self
+
+        def pair(table):
+            if isinstance(table, ast.Dict) and len(table.keys) == 2:
+                ks = {k.value: v for k, v in zip(table.keys, table.values) if isinstance(k, ast.Constant) and isinstance(k.value, bool)}
+                if set(ks) == {True, False}:
+                    return ks[True], ks[False]
+            return None
+
+        class T(ast.NodeTransformer):
+            def visit_Subscript(self, node):
+                node = self.generic_visit(node)
+                if not isinstance(node.ctx, ast.Load) or isinstance(node.slice, (ast.Slice, ast.Constant)):
+                    return node
+                pr = None
+                if isinstance(node.value, (ast.Name, ast.Attribute)):
+                    pr = pair(nz.const_table(node.value, fi))
+                elif isinstance(node.value, ast.Dict):
+                    pr = pair(node.value)
+                if pr is None:
+                    return node
+                return ast.copy_location(ast.IfExp(test=node.slice, body=clone(pr[0]), orelse=clone(pr[1])), node)
+
+            def visit_FunctionDef(self, node):
+                return node
+
+            visit_AsyncFunctionDef = visit_ClassDef = visit_FunctionDef
+        out = []
+        for s_ in stmts:
+            if isinstance(s_, (ast.FunctionDef, ast.AsyncFunctionDef, ast.ClassDef)):
+                out.append(s_)
+            else:
+                out.append(ast.fix_missing_locations(T().visit(s_)))
+        return out
 
     def unroll_block(self, stmts: list, fi: FuncInfo) -> list:
         out = []
